@@ -46,12 +46,19 @@ class Contract:
         return self.target.split('::')[1]
 
     @property
+    def _parts(self):
+        parts = self.qualname.split('.')
+        if parts[-1] == 'setter' and len(parts) >= 3:
+            return parts[:-2] + [parts[-2] + '.setter']
+        return parts
+
+    @property
     def name(self):
-        return self.qualname.split('.')[-1]
+        return self._parts[-1]
 
     @property
     def cls(self):
-        parts = self.qualname.split('.')
+        parts = self._parts
         return parts[-2] if len(parts) > 1 else None
 
     @property
